@@ -18,6 +18,7 @@ ENVS = ['a', 'center', 'tabular']
 MATH = [('$', '$'), ('$$', '$$'), ('\\(', '\\)'), ('\\[', '\\]')]
 MATHENVS = ['equation', 'align*']
 VERBS = ['verbatim', 'lstlisting']
+DEFS = ['newcommand', 'renewcommand', 'providecommand']
 VERB_BODIES = ['x', '$ {', '\\x{', '% }\n y', 'a\\begin{b}', ']} $$']
 
 
@@ -91,7 +92,64 @@ class Gen:
         if r < 0.95 and not math:
             c = '%' + self.rnd.choice(['', ' note', '{', '}$', '\\end{a}', '\\item'])
             return c + '\n', ('comment+nl', c)
+        if r < 0.985 and not math and not in_bracket:
+            return self.definition(d)
         return self.text()
+
+    # ------------------------------------------------------------------ \newcommand-style definitions
+    def definition(self, d):
+        """\\newcommand{\\name}[n][default]{body}: in the body \\begin / \\end are ordinary commands (they open and
+        close nothing), at any depth of nested command arguments"""
+        cmd = self.rnd.choice(DEFS)
+        name = self.rnd.choice(['x', 'wrap', 'open'])
+        s = '\\%s{\\%s}' % (cmd, name)
+        a = [('{', [('cmd', name, [], [])])]
+        if self.rnd.random() < 0.5:
+            n = self.rnd.choice('12')
+            s += '[%s]' % n
+            a.append(('[', [('text', n)]))
+            if self.rnd.random() < 0.3:
+                s += '[d]'
+                a.append(('[', [('text', 'd')]))
+        self.noverb += 1
+        body_s, body_t = self.special_seq(max(d - 1, 1))
+        self.noverb -= 1
+        s += '{' + body_s + '}'
+        a.append(('{', body_t))
+        return s, ('cmd', cmd, a, [])
+
+    def special_seq(self, d):
+        out_s, out_t = '', []
+        for _ in range(self.rnd.randrange(1, 4)):
+            s, t = self.special_construct(d)
+            if out_t and out_t[-1][0] == 'cmd' and (s[:1].isalpha() or s[:1] in ' \n\t{[*'):
+                out_s += '.'
+                out_t.append(('text', '.'))
+            out_s += s
+            out_t.append(t)
+        return out_s, out_t
+
+    def special_construct(self, d):
+        r = self.rnd.random()
+        if r < 0.3:
+            t = self.rnd.choice(['a', '#1', 'x+1', ', '])
+            return t, ('text', t)
+        if r < 0.65:
+            which = self.rnd.choice(['begin', 'end'])
+            q = self.rnd.choice(['quote', 'a', 'itemize'])
+            return '\\%s{%s}' % (which, q), ('cmd', which, [('{', [('text', q)])], [])
+        if r < 0.9 and d > 0:
+            name = self.rnd.choice(CMDS)
+            a_s, a_t = '', []
+            if self.rnd.random() < 0.3:
+                a_s, a_t = '[o]', [('[', [('text', 'o')])]
+            for _ in range(self.rnd.randrange(1, 3)):
+                s, t = self.special_seq(d - 1)
+                a_s += '{' + s + '}'
+                a_t.append(('{', t))
+            return '\\' + name + a_s, ('cmd', name, a_t, [])
+        s, t = self.special_seq(d - 1) if d > 0 else ('a', [('text', 'a')])
+        return '{' + s + '}', ('group', t)
 
     def args(self, d, math):
         out_s, out_t = '', []
